@@ -92,6 +92,29 @@ Proof.
   eapply tc_cons; [|apply tc_one]; simpl; auto 10.
 Qed.
 
+(** ** Scheduler._perform_rollbacks: a job that executes rolls back to *every* Handle state among
+    its arguments; afterwards every state derived from any of them is invalid. *)
+Theorem C25_perform_rollbacks_all_fixed : forall cse hist hs, Forall wf_op hist ->
+  exists d0 d, run (std_cfg false cse) hist = Done d0 /\
+               perform_rollbacks (std_cfg false cse) hs d0 = Done d /\
+               forall h s, In h hs -> tc (E (ref hist)) (oid h) s -> is_valid_handle d s = false.
+Proof. exact perform_rollbacks_all. Qed.
+
+(** Rolling back only the first Handle of each fullname (a `seen_names` shortcut) violates it: a job
+    receives the two forks s1, s2 of s0; s3 was derived from s2; only s1 is rolled back. *)
+Definition first_per_name_cfg (vo cse : bool) : cfg := mkCfg true true true true true vo cse true.
+Theorem C25_first_per_name_refuted : exists hist hs h s, Forall wf_op hist /\ In h hs /\ tc (E (ref hist)) (oid h) s /\
+  forall vo cse, exists d0 d, run (first_per_name_cfg vo cse) hist = Done d0 /\
+                              perform_rollbacks (first_per_name_cfg vo cse) hs d0 = Done d /\
+                              is_valid_handle d s = true.
+Proof.
+  exists [Adv [st 0] (st 1); Adv [st 0] (st 2); Adv [st 2] (st 3)], [st 1; st 2], (st 2), (0, 3).
+  split; [repeat constructor; simpl; intros p [<-|[]]; reflexivity|].
+  split; [simpl; auto|]. split; [apply tc_one; simpl; auto 10|].
+  intros vo cse. eexists. eexists. split; [destruct vo; vm_compute; reflexivity|].
+  split; destruct vo; vm_compute; reflexivity.
+Qed.
+
 (** ** Replay decision (_get_cache). *)
 (** Whenever the validity of the result is consulted (always in the repaired code; for every
     non-CSE hit as shipped) a replayed result contains only valid handle states. *)
@@ -161,3 +184,5 @@ Print Assumptions C25_replay_checked_partial.
 Print Assumptions C25_no_invalid_replay_fixed.
 Print Assumptions C25_replay_cse_refuted.
 Print Assumptions C25_nonvacuous.
+Print Assumptions C25_perform_rollbacks_all_fixed.
+Print Assumptions C25_first_per_name_refuted.
